@@ -12,7 +12,7 @@ From ClapModel Require Import Derive.DeriveCmd Derive.DeriveArgs Derive.DerivePa
 From ClapModel Require Import Parse.Validator ParseProofs.Relations ParseProofs.ValidateTotal Derive.DerivePost Derive.DerivePostEx.
 From ClapModel Require Import ParseProofs.Dispatch Derive.LoopInv Derive.DeriveFlat Derive.DeriveTotal Derive.DeriveTotalEx.
 From ClapModel Require Import ParseProofs.KindSound Derive.DeriveUpdateLine Derive.DeriveUpdateLineEx Derive.DeriveDec Derive.DeriveKeys Derive.DerivePos.
-From ClapModel Require Import Derive.DeriveEnum Derive.DeriveEnumField Derive.DeriveEnumEx.
+From ClapModel Require Import Derive.DeriveEnum Derive.DeriveEnumField Derive.DeriveEnumEx Derive.DeriveAbsent Derive.DeriveOptBool.
 From Coq Require Import ZArith List.
 Import ListNotations.
 Open Scope N_scope.
@@ -861,3 +861,118 @@ Proof.
   split; [exact EnumEx.ex_print|]. split; [exact EnumEx.ex_roundtrip|exact EnumEx.ex_alias_and_skip].
 Qed.
 Print Assumptions C15_roundtrip_parse_enum_nonvacuous.
+
+(** * Round 5 (2): [bool] versus [Option<bool>] / [Option<Option<bool>>] (Derive/DeriveOptBool.v, DeriveAbsent.v) *)
+
+(** [item.rs default_action] decides on the FIELD type: [ArgAction::SetTrue] exactly for a field declared with the simple path
+    [bool] -- never for [Option<bool>], [Option<Option<bool>>], [Vec<bool>] (a seeded change looked at the inner type). *)
+Theorem C15_default_action_settrue_iff : forall t elem,
+  default_action t elem = ASetTrue <-> t = SynPath /\ elem = TBool.
+Proof. exact default_action_settrue_iff. Qed.
+Print Assumptions C15_default_action_settrue_iff.
+
+Theorem C15_default_action_option_bool :
+  default_action SynPath TBool = ASetTrue
+  /\ default_action (SynOption SynPath) TBool = ASet
+  /\ default_action (SynOption (SynOption SynPath)) TBool = ASet
+  /\ default_action (SynVec SynPath) TBool = AAppend
+  /\ default_action (SynOption (SynVec SynPath)) TBool = AAppend.
+Proof. exact default_action_option_bool. Qed.
+Print Assumptions C15_default_action_option_bool.
+
+(** THE GENERATED ARGUMENT of [x: Option<bool>] / [x: Option<Option<bool>>] (no attribute but the name: [optbool_field]):
+    action Set, the bool value parser, one value (resp. 0..=1), not required and NO default -- whereas [x: bool]
+    ([bool_field]) is a SetTrue flag without value whose implied default "false" is stored by every parse. *)
+Theorem C15_optbool_argument : forall f, optbool_field f ->
+  a_get_action (bf f) = ASet
+  /\ a_vp (bf f) = Some Cmd.VPBool
+  /\ a_num (bf f) = Some (match f_ty f with TyOptionOption => r_opt | _ => r_single end)
+  /\ a_required (bf f) = false
+  /\ a_default (bf f) = [].
+Proof. exact optbool_argument. Qed.
+Print Assumptions C15_optbool_argument.
+
+Theorem C15_bool_argument : forall f, bool_field f ->
+  a_get_action (bf f) = ASetTrue
+  /\ a_vp (bf f) = Some Cmd.VPBool
+  /\ a_num (bf f) = Some r_empty
+  /\ a_default (bf f) = [s_false].
+Proof. exact bool_argument. Qed.
+Print Assumptions C15_bool_argument.
+
+(** what the canonical printer writes for such a field: nothing for [None], [--x=true|false] for [Some(b)] (a bare [--x] for
+    [Some(None)] of an [Option<Option<bool>>]) *)
+Theorem C15_optbool_print : forall f, optbool_field f ->
+  (f_ty f = TyOption ->
+     field_groups f (DOpt None) = Some None
+     /\ (forall b, field_groups f (DOpt (Some (SvBool b))) = Some (Some [[if b then s_true else s_false]])))
+  /\ (f_ty f = TyOptionOption ->
+     field_groups f (DOptOpt None) = Some None
+     /\ field_groups f (DOptOpt (Some None)) = Some (Some [[]])
+     /\ (forall b, field_groups f (DOptOpt (Some (Some (SvBool b)))) = Some (Some [[if b then s_true else s_false]]))).
+Proof. intros f H. split; [exact (optbool_print f H)|exact (optoptbool_print f H)]. Qed.
+Print Assumptions C15_optbool_print.
+
+(** ROUND TRIP [None <-> absent] for structs of such fields, as an EQUALITY through the parser model and with NO hypothesis on the
+    value: every value of the type that prints ([None] -> nothing, [Some(b)] -> [--x=b]) parses back to itself; instance of
+    [C15_roundtrip_parse_class] whose value-side hypotheses ([ok_nodes], [fits_all], [required_mentioned], [takes_ok]) are
+    all derived from the class. *)
+Theorem C15_roundtrip_parse_optbool : forall d bin vs argv,
+  opt_struct d -> Forall optbool_field (fields_of (d_nodes d)) ->
+  valid (UnparseTree.with_bin (derive_cmd d) bin) = true -> print d vs = Some argv ->
+  derived_parse d (bin :: argv) = PValue vs.
+Proof. exact roundtrip_parse_optbool. Qed.
+Print Assumptions C15_roundtrip_parse_optbool.
+
+(** ABSENT => THE ABSENT VALUE, ALL ARGV.  For every struct of argument fields and flattened structs whose command passes
+    clap's assertions, every line and every field whose argument has no default (not a [bool] flag / counter /
+    [default_value]): if no token of the line names the field's argument (C10's [occurs]: key-map selection), the value the
+    derived parser returns holds the field's [absent_value] -- [None] for [Option<T>] / [Option<Option<T>>] / [Option<Vec<T>>],
+    the empty vector for [Vec<T>]; [field_at] looks the field up through non-optional flattens.  C10 [accepted_faithful],
+    C06 [precedence] + [cmdline_phase_all_cl] (no entry at the end), then [extract_absent] (mutual induction: an absent id
+    stays absent while extraction consumes the matches). *)
+Theorem C15_unoccurring_is_absent : forall d bin toks vs f,
+  flat_nodes (d_nodes d) = true -> In f (leaves (d_nodes d)) -> bf_default f = [] ->
+  valid (UnparseTree.with_bin (derive_cmd d) bin) = true ->
+  (forall a, In a (c_args (built d bin)) -> a_id a = f_id f -> ~ occurs (built d bin) toks a) ->
+  derived_parse d (bin :: toks) = PValue vs ->
+  forall x, field_at (d_nodes d) vs (f_id f) = Some x -> absent_value f = Some x.
+Proof. exact unoccurring_is_absent. Qed.
+Print Assumptions C15_unoccurring_is_absent.
+
+(** ... for [Option<T>] fields, [Option<bool>] in particular: absent is [None], never [Some(false)] *)
+Theorem C15_unoccurring_option_is_none : forall d bin toks vs f,
+  flat_nodes (d_nodes d) = true -> In f (leaves (d_nodes d)) -> f_ty f = TyOption -> bf_default f = [] ->
+  valid (UnparseTree.with_bin (derive_cmd d) bin) = true ->
+  (forall a, In a (c_args (built d bin)) -> a_id a = f_id f -> ~ occurs (built d bin) toks a) ->
+  derived_parse d (bin :: toks) = PValue vs ->
+  forall x, field_at (d_nodes d) vs (f_id f) = Some x -> x = DOpt None.
+Proof. exact unoccurring_option_is_none. Qed.
+Print Assumptions C15_unoccurring_option_is_none.
+
+(** Non-vacuity: [{ a: Option<bool>, b: Option<bool>, c: Option<Option<bool>>, d: Option<Option<bool>> }]:
+    [{None, Some(false), Some(None), Some(Some(true))}] = [--bb=false --cc -d=true] and the all-[None] value = the empty line
+    round-trip (by the theorem); [--aa] alone is a missing value (not a flag), [--aa true] is [Some(true)]; on
+    [prog --bb false] no token names [a], every hypothesis of [C15_unoccurring_option_is_none] holds, and [a] is [None]. *)
+Theorem C15_optbool_nonvacuous :
+  opt_struct OptBoolEx.d /\ Forall optbool_field (fields_of (d_nodes OptBoolEx.d))
+  /\ valid (UnparseTree.with_bin (derive_cmd OptBoolEx.d) b_prog) = true
+  /\ print OptBoolEx.d OptBoolEx.v = Some OptBoolEx.argv /\ print OptBoolEx.d OptBoolEx.v0 = Some []
+  /\ derived_parse OptBoolEx.d (b_prog :: OptBoolEx.argv) = PValue OptBoolEx.v
+  /\ derived_parse OptBoolEx.d [b_prog] = PValue OptBoolEx.v0
+  /\ derived_parse OptBoolEx.d [b_prog; [45;45;97;97]] = PError EInvalidValue
+  /\ derived_parse OptBoolEx.d [b_prog; [45;45;97;97]; s_true]
+       = PValue [DOpt (Some (SvBool true)); DOpt None; DOptOpt None; DOptOpt None]
+  /\ (forall a, In a (c_args (built OptBoolEx.d b_prog)) -> a_id a = f_id OptBoolEx.fa ->
+               ~ occurs (built OptBoolEx.d b_prog) OptBoolEx.toks a)
+  /\ In OptBoolEx.fa (leaves (d_nodes OptBoolEx.d)) /\ f_ty OptBoolEx.fa = TyOption /\ bf_default OptBoolEx.fa = []
+  /\ derived_parse OptBoolEx.d (b_prog :: OptBoolEx.toks) = PValue OptBoolEx.v2
+  /\ field_at (d_nodes OptBoolEx.d) OptBoolEx.v2 (f_id OptBoolEx.fa) = Some (DOpt None).
+Proof.
+  destruct OptBoolEx.ex_print as [P1 P2]. destruct OptBoolEx.ex_roundtrip as [R1 R2].
+  destruct OptBoolEx.ex_computed as (_ & C2 & C3). destruct OptBoolEx.ex_line as (_ & L2 & L3 & L4 & L5 & L6).
+  split; [exact OptBoolEx.ex_struct|]. split; [exact OptBoolEx.ex_fields|]. split; [exact OptBoolEx.ex_valid|].
+  split; [exact P1|]. split; [exact P2|]. split; [exact R1|]. split; [exact R2|]. split; [exact C2|]. split; [exact C3|].
+  split; [exact OptBoolEx.ex_unnamed|]. split; [exact L2|]. split; [exact L3|]. split; [exact L4|]. split; [exact L5|exact L6].
+Qed.
+Print Assumptions C15_optbool_nonvacuous.
